@@ -35,7 +35,12 @@ func writeEvidence(prop, tier string, seed uint64, cfg tierCfg, ws *Workspace, m
 	}
 	faults := map[string]int{}
 	probes := map[string]int{}
+	cells := []string{}
 	for k, v := range m.Stats {
+		if strings.HasPrefix(k, "cell.") {
+			cells = append(cells, strings.TrimPrefix(k, "cell."))
+			continue
+		}
 		if strings.HasPrefix(k, "fault.") {
 			faults[strings.TrimPrefix(k, "fault.")] = v
 		} else {
@@ -83,6 +88,12 @@ func writeEvidence(prop, tier string, seed uint64, cfg tierCfg, ws *Workspace, m
 		"real_code":           "every non-test .go file of /repo's working tree for linux (woven at seams)",
 		"stubbed":             "OS (env, fd1/2, exit, disk, clock, tty), user callbacks",
 		"exhaustive":          false,
+	}
+	if len(cells) > 0 {
+		sort.Strings(cells)
+		cov["cells"] = cells
+		cov["cells_covered"] = len(cells)
+		cov["cells_rule"] = "cell = (history shape | option kind class | subset of {cli, ini, env, default, stored} present for a judged option); at most 4 x 5 x 32 = 640"
 	}
 	ev := map[string]interface{}{
 		"property_id": prop,
